@@ -215,6 +215,19 @@ def fun_pair(emit, cid, pair, rng, sample):
         cmp_emit(emit, cid, pair, "intercept_update_step", A.intercept_update_step(y, X @ w), B.intercept_update_step(yr, Xr @ w))
     elif pair == "cox_efron~breslow_no_ties":
         ys = C.make_target(rng, X, "surv", ties=False)
+        if int(cid.rsplit("/r", 1)[1]) % 2 == 1 and n >= 6:
+            # no two *events* share a time, but censored observations share theirs with events and with each other, in
+            # arbitrary row order: Efron's correction only concerns tied events, so the two conventions still coincide
+            st = (rng.random(n) < 0.6).astype(float)
+            st[:2] = 1.0
+            ev = np.where(st == 1)[0]
+            tm = np.zeros(n)
+            tm[ev] = rng.permutation(len(ev)) + 1.0
+            cz = np.where(st == 0)[0]
+            tm[cz] = rng.choice(tm[ev], size=len(cz))
+            perm = rng.permutation(n)
+            ys = np.asfortranarray(np.column_stack([tm, st])[perm])
+            X = np.asfortranarray(X[perm])
         A, B = cc(D.Cox(True)), cc(D.Cox(False))
         A.initialize(X, ys)
         B.initialize(X, ys)
@@ -304,7 +317,9 @@ def sol_pair(emit, cid, pair, rng, sample):
                 X, y, dfb, cc(mk()), *(() if w0 is None else (w0.copy(), X @ w0)))
             label = "solution[%s%s]" % (pen, "" if w0 is None else ",warm")
         elif pair == "sol:estimator~gle":
-            which = str(rng.choice(["Lasso", "ElasticNet", "WeightedLasso", "MCPRegression", "SparseLogisticRegression"]))
+            which = ["Lasso", "ElasticNet", "WeightedLasso", "MCPRegression", "SparseLogisticRegression", "ElasticNet_r1"][
+                int(cid.rsplit("/r", 1)[1]) % 6]
+            pos = bool(rng.integers(0, 2))
             icpt = bool(rng.integers(0, 2))
             kw = dict(tol=tol, fit_intercept=icpt)
             if which == "SparseLogisticRegression":
@@ -315,13 +330,18 @@ def sol_pair(emit, cid, pair, rng, sample):
                 eb = E.GeneralizedLinearEstimator(D.Logistic(), P.L1(alpha), S.ProxNewton(tol=tol, fit_intercept=icpt)).fit(X, y)
                 refpen = R.RefPenalty("l1", alpha=alpha)
             else:
-                mkp = {"Lasso": (lambda: P.L1(alpha), R.RefPenalty("l1", alpha=alpha), lambda: E.Lasso(alpha=alpha, **kw)),
-                       "ElasticNet": (lambda: P.L1_plus_L2(alpha, 0.5), R.RefPenalty("enet", alpha=alpha, l1_ratio=0.5),
-                                      lambda: E.ElasticNet(alpha=alpha, l1_ratio=0.5, **kw)),
-                       "WeightedLasso": (lambda: P.WeightedL1(alpha, wts.copy()), R.RefPenalty("wl1", alpha=alpha, weights=wts),
-                                         lambda: E.WeightedLasso(alpha=alpha, weights=wts.copy(), **kw)),
-                       "MCPRegression": (lambda: P.MCPenalty(alpha, 3.0), R.RefPenalty("mcp", alpha=alpha, gamma=3.0),
-                                         lambda: E.MCPRegression(alpha=alpha, gamma=3.0, **kw))}[which]
+                mkp = {"Lasso": (lambda: P.L1(alpha, pos), R.RefPenalty("l1", alpha=alpha, positive=pos),
+                                 lambda: E.Lasso(alpha=alpha, positive=pos, **kw)),
+                       "ElasticNet": (lambda: P.L1_plus_L2(alpha, 0.5, pos), R.RefPenalty("enet", alpha=alpha, l1_ratio=0.5, positive=pos),
+                                      lambda: E.ElasticNet(alpha=alpha, l1_ratio=0.5, positive=pos, **kw)),
+                       # the elastic net configured as a Lasso (l1_ratio = 1) against the Lasso penalty itself
+                       "ElasticNet_r1": (lambda: P.L1(alpha, pos), R.RefPenalty("l1", alpha=alpha, positive=pos),
+                                         lambda: E.ElasticNet(alpha=alpha, l1_ratio=1.0, positive=pos, **kw)),
+                       "WeightedLasso": (lambda: P.WeightedL1(alpha, wts.copy(), pos),
+                                         R.RefPenalty("wl1", alpha=alpha, weights=wts, positive=pos),
+                                         lambda: E.WeightedLasso(alpha=alpha, weights=wts.copy(), positive=pos, **kw)),
+                       "MCPRegression": (lambda: P.MCPenalty(alpha, 3.0, pos), R.RefPenalty("mcp", alpha=alpha, gamma=3.0, positive=pos),
+                                         lambda: E.MCPRegression(alpha=alpha, gamma=3.0, positive=pos, **kw))}[which]
                 ea = mkp[2]().fit(X, y)
                 eb = E.GeneralizedLinearEstimator(D.Quadratic(), mkp[0](), S.AndersonCD(tol=tol, fit_intercept=icpt)).fit(X, y)
                 refpen = mkp[1]
